@@ -181,3 +181,13 @@ Definition grease_apply (g : gstate) (m : msg) : res msg :=
   | Shuffle perm => randomly_order_tags perm m
   | CorruptSig rnd => corrupt_response_signature rnd m
   end.
+
+(* loop { body; if c { break; } } on fuel: body returns the new state and whether it broke out *)
+Fixpoint loop_fuel {S} (fuel : nat) (body : S -> res (S * bool)) (s : S) : res S :=
+  match fuel with
+  | O => Panic site_fuel
+  | S f => obind (body s) (fun '(s', stop) => if stop then Ok s' else loop_fuel f body s')
+  end.
+
+(* mio readiness tokens of the server's poll *)
+Inductive evtoken := EvMessage | EvHealthCheck | EvStatusUpdate | EvOther.
